@@ -7,7 +7,8 @@ ID = "C16"
 THEOREMS = ["C16_flush", "C16_consumable", "C16_header", "C16_model_header", "C16_model_flush_consumable", "C16_intersect_rows", "C16_positions_refuted",
             "C16_trace_is_emits", "C16_level_spec", "C16_plain_nest_spec", "C16_plain_nest",
             "C16_intersect_rows_b", "C16_intersect_yields", "C16_eager_nest_spec", "C16_eager_nest",
-            "C16_model_meets_spec_partial"]
+            "C16_model_meets_spec_partial",
+            "C16_pop_stamp_discipline", "C16_pop_loop_facts", "C16_pop_level_core"]
 COQ_IMPORTS = "From FT Require Import Model.Base Model.Obs Model.C16Metrics Model.C16Nest Model.C16Check."
 CHECK_VO = ["Model/C16Check.v"]
 CHECKER = "c16_checker"
